@@ -443,10 +443,10 @@ func (x *g) stmtOf(what string) {
 		x.mutate()
 	case "if":
 		x.f("if")
-		x.line("if %s:", x.expr(KBool, 2))
+		x.line("if %s:", x.cond(2))
 		x.block(1 + x.intn(3, "ifn"))
 		if x.chance(0.4, "elif") {
-			x.line("elif %s:", x.expr(KBool, 1))
+			x.line("elif %s:", x.cond(1))
 			x.block(1 + x.intn(2, "elifn"))
 		}
 		if x.chance(0.5, "else") {
@@ -497,7 +497,7 @@ func (x *g) stmtOf(what string) {
 		x.declare(w, kind(99), nil)
 		cond := fmt.Sprintf("%s > 0", cnt)
 		if x.chance(0.3, "wcond") {
-			cond += " and " + x.expr(KBool, 1)
+			cond += " and " + x.cond(1)
 		}
 		x.line("while %s:", cond)
 		x.indent++
@@ -509,7 +509,7 @@ func (x *g) stmtOf(what string) {
 	case "break", "continue":
 		x.f(what)
 		if x.chance(0.8, "condbranch") {
-			x.line("if %s:", x.expr(KBool, 1))
+			x.line("if %s:", x.cond(1))
 			x.indent++
 			x.line("%s", what)
 			x.indent--
@@ -550,7 +550,7 @@ func (x *g) stmtOf(what string) {
 			return
 		}
 		x.f("early-return")
-		x.line("if %s:", x.expr(KBool, 1))
+		x.line("if %s:", x.cond(1))
 		x.indent++
 		x.line("return %s", x.expr(x.retKind(), 1))
 		x.indent--
@@ -1054,6 +1054,37 @@ func (x *g) expr(k kind, depth int) string {
 	return x.wrapT(x.exprOf(k, depth))
 }
 
+// cond is an expression in a position where only its truth matters (if/elif/while conditions, conditional
+// expressions, comprehension conditions, operands of not/and/or): usually a boolean, sometimes any other value -
+// a unary operator applied to an int (not to be confused with `not`), a container, a string, a parenthesised chain.
+func (x *g) cond(depth int) string {
+	if depth < 0 {
+		depth = 0
+	}
+	if !x.chance(0.2, "nonbool-cond") {
+		return x.expr(KBool, depth)
+	}
+	x.f("nonbool-condition")
+	switch x.intn(8, "condform") {
+	case 0:
+		return "-" + x.expr(KInt, depth)
+	case 1:
+		return "~" + x.expr(KInt, depth)
+	case 2:
+		return "+" + x.expr(KInt, depth)
+	case 3:
+		return "not -" + x.expr(KInt, depth)
+	case 4:
+		return x.expr(KList, depth)
+	case 5:
+		return x.expr(KStr, depth)
+	case 6:
+		return "not not " + x.expr(KInt, depth)
+	default:
+		return "(" + x.expr(KInt, depth) + " - 1)"
+	}
+}
+
 func (x *g) varOr(k kind, lit func() string) string {
 	vs := x.visible(k)
 	if len(vs) > 0 && x.chance(0.6, "usevar") {
@@ -1134,7 +1165,7 @@ func (x *g) exprOf(k kind, depth int) string {
 			return x.intLit()
 		case 8:
 			x.f("condexpr")
-			return fmt.Sprintf("(%s if %s else %s)", x.expr(KInt, depth-1), x.expr(KBool, depth-1), x.expr(KInt, depth-1))
+			return fmt.Sprintf("(%s if %s else %s)", x.expr(KInt, depth-1), x.cond(depth-1), x.expr(KInt, depth-1))
 		case 9:
 			x.f("shortcircuit")
 			op := []string{"or", "and"}[x.intn(2, "sc")]
@@ -1177,11 +1208,11 @@ func (x *g) exprOf(k kind, depth int) string {
 			op := []string{"in", "not in"}[x.intn(2, "in")]
 			return fmt.Sprintf("(%s %s %s)", x.expr(KInt, depth-1), op, x.expr(KList, depth-1))
 		case 2:
-			return fmt.Sprintf("(not %s)", x.expr(KBool, depth-1))
+			return fmt.Sprintf("(not %s)", x.cond(depth-1))
 		case 3:
 			x.f("shortcircuit")
 			op := []string{"or", "and"}[x.intn(2, "sc")]
-			return fmt.Sprintf("(%s %s %s)", x.expr(KBool, depth-1), op, x.expr(KBool, depth-1))
+			return fmt.Sprintf("(%s %s %s)", x.cond(depth-1), op, x.expr(KBool, depth-1))
 		case 4:
 			return fmt.Sprintf("(%s in %s)", x.expr(KStr, 0), x.expr(KDict, depth-1))
 		case 5:
@@ -1363,14 +1394,14 @@ func (x *g) comprehension(depth int) string {
 			seq2 = fmt.Sprintf("range(%s %% 3)", v)
 		}
 		if x.chance(0.3, "mid-if") {
-			clauses += fmt.Sprintf(" if %s", x.expr(KBool, depth-1))
+			clauses += fmt.Sprintf(" if %s", x.cond(depth-1))
 		}
 		x.sc.vars = append(x.sc.vars, &varInfo{v2, KInt, nil})
 		extra = " + " + v2
 		clauses += fmt.Sprintf(" for %s in %s", v2, seq2)
 	}
 	if x.chance(0.5, "compif") {
-		clauses += fmt.Sprintf(" if %s", x.expr(KBool, depth-1))
+		clauses += fmt.Sprintf(" if %s", x.cond(depth-1))
 	}
 	body := x.expr(KInt, depth-1)
 	if extra != "" {
